@@ -37,6 +37,30 @@ Definition ident_delim (rest : str) : bool :=
   | c :: _ => negb (is_ident_char c) && negb (is_unq_char c) && negb (c =? 92)%N
   end.
 
+(* last character of a piece after which layout may be inserted: anything but
+   hash, brackets, equals sign, backslash and layout itself *)
+Definition good_last (l : char) : bool :=
+  negb (mem l [hash; lbr; rbr; eqc; bsl; sp; tab; cr; nl]).
+
+
+(* boundary condition: at every piece start inside x, the following text y does not
+   change the decision of the lexer *)
+Definition stable_boundary (x y : str) : Prop :=
+  forall qs rest, reaches x qs rest -> rest <> [] -> best (rest ++ y) = best rest.
+
+(* the text of a one-line comment: no end-of-line inside, not the start of a bracket comment *)
+Definition comment_text (text : str) : bool :=
+  forallb (fun c => negb (is_eol c)) text && negb (opens_bracket text).
+
+Definition line_comment (text : str) : str := hash :: text ++ [nl].
+
+(* a matcher result that is absent or at most bound characters long *)
+Definition short_opt (r : option nat) (bound : nat) : Prop :=
+  match r with None => True | Some n => n <= bound end.
+
+Definition short_res (r : option (nat * bool)) (bound : nat) : Prop :=
+  match r with None => True | Some (n, _) => n <= bound end.
+
 (* ---- generic list / string helpers ---- *)
 
 Lemma str_ind2 (P : str -> Prop) :
@@ -542,7 +566,7 @@ Proof.
   rewrite lex_all_step, B. f_equal. lia.
 Qed.
 
-Corollary lex_stuck_ex : forall x ps rest,
+Corollary lex_stuck_exists : forall x ps rest,
   reaches x ps rest -> rest <> [] -> best rest = None -> exists p, lex_all x = LexErr p.
 Proof. intros x ps rest H Hne B. eexists. eapply lex_stuck; eassumption. Qed.
 
@@ -799,7 +823,7 @@ Qed.
 Example quoted_piece_shape_ex : best (s"""a\""b"" c") = Some (TQuoted, 6).
 Proof. vm_compute. reflexivity. Qed.
 
-Example lex_stuck_ex1 :
+Example lex_stuck_example :
   reaches (s"f(""ab") [(TIdent, s"f"); (TLParen, s"(")] (s"""ab") /\
   best (s"""ab") = None /\ lex_all (s"f(""ab") = LexErr 2.
 Proof.
@@ -1013,11 +1037,6 @@ Proof.
   intro H. rewrite skipn_app. replace (n - length l1) with 0 by lia. reflexivity.
 Qed.
 
-(* boundary condition: at every piece start inside x, the following text y does not
-   change the decision of the lexer *)
-Definition stable_boundary (x y : str) : Prop :=
-  forall qs rest, reaches x qs rest -> rest <> [] -> best (rest ++ y) = best rest.
-
 Lemma reaches_app (x y : str) (qs : list token) (rest : str) :
   stable_boundary x y -> reaches x qs rest -> reaches (x ++ y) qs (rest ++ y).
 Proof.
@@ -1226,12 +1245,6 @@ Qed.
 
 (* ---- C3: inserting a line comment ---- *)
 
-(* the text of a one-line comment: no end-of-line inside, not the start of a bracket comment *)
-Definition comment_text (text : str) : bool :=
-  forallb (fun c => negb (is_eol c)) text && negb (opens_bracket text).
-
-Definition line_comment (text : str) : str := hash :: text ++ [nl].
-
 Lemma lex_insert_after_piece (u rest ins : str) (k : tk) :
   u <> [] ->
   best (u ++ rest) = Some (k, length u) ->
@@ -1384,6 +1397,968 @@ Example lex_insert_comment_needs_no_bracket :
   comment_text (s"[[x") = false /\ lex (line_comment (s"[[x") ++ s"f()") = LexErr 0.
 Proof. split; vm_compute; reflexivity. Qed.
 
+(* ---- C2 in context: layout inserted after a piece does not disturb the pieces before it ---- *)
+
+Lemma good_last_facts (l : char) :
+  good_last l = true ->
+  (l =? 35)%N = false /\ (l =? 91)%N = false /\ (l =? 93)%N = false /\ (l =? 61)%N = false /\
+  (l =? 92)%N = false /\ is_sptab l = false /\ is_eol l = false.
+Proof.
+  unfold good_last, mem, hash, lbr, rbr, eqc, bsl, sp, tab, cr, nl, is_sptab, is_eol. intro H.
+  repeat split; lia.
+Qed.
+
+Lemma ws_facts (c : char) :
+  is_ws c = true ->
+  (c =? 35)%N = false /\ (c =? 93)%N = false /\ (c =? 61)%N = false /\ (c =? 34)%N = false /\
+  (c =? 92)%N = false /\ mem c module_kw = false.
+Proof.
+  unfold is_ws, is_sptab, is_eol. intro H.
+  assert (E : c = 32%N \/ c = 9%N \/ c = 13%N \/ c = 10%N) by lia.
+  destruct E as [-> | [-> | [-> | ->]]]; repeat split; reflexivity.
+Qed.
+
+Lemma mem_bracket_close (c : char) (n : nat) :
+  (c =? 93)%N = false -> (c =? 61)%N = false -> mem c (bracket_close n) = false.
+Proof.
+  intros H1 H2. unfold bracket_close. cbn [app mem]. unfold rbr. rewrite H1. cbn [orb].
+  induction n as [|n IH]; cbn [repeat app mem].
+  - rewrite H1. reflexivity.
+  - unfold eqc at 1. rewrite H2. exact IH.
+Qed.
+
+(* -- primitives -- *)
+
+Lemma startswith_last (p v : str) (l : char) (y y' : str) :
+  mem l p = false -> startswith p (v ++ l :: y) = startswith p (v ++ l :: y').
+Proof.
+  revert v. induction p as [|a p IH]; intros v H; [reflexivity|].
+  cbn [mem] in H. apply orb_false_iff in H. destruct H as [Hl Hp].
+  destruct v as [|b v]; cbn [app startswith].
+  - rewrite N.eqb_sym, Hl. reflexivity.
+  - rewrite (IH v Hp). reflexivity.
+Qed.
+
+Lemma startswith_len_last (p v : str) (l : char) (y : str) :
+  startswith p (v ++ l :: y) = true -> mem l p = false -> length p <= length v.
+Proof.
+  revert v. induction p as [|a p IH]; intros v H Hm; [cbn [length]; lia|].
+  cbn [mem] in Hm. apply orb_false_iff in Hm. destruct Hm as [Hl Hp].
+  destruct v as [|b v]; cbn [app startswith] in H.
+  - rewrite N.eqb_sym, Hl in H. discriminate H.
+  - apply andb_true_iff in H. destruct H as [_ H]. specialize (IH v H Hp). cbn [length]. lia.
+Qed.
+
+Lemma startswith_local (p v z z' : str) :
+  length p <= length v -> startswith p (v ++ z) = startswith p (v ++ z').
+Proof.
+  revert v. induction p as [|a p IH]; intros v H; [reflexivity|].
+  destruct v as [|b v]; cbn [length] in H; [lia|].
+  cbn [app startswith]. rewrite (IH v) by lia. reflexivity.
+Qed.
+
+Lemma startswith_insert_false (p v ins z : str) :
+  (forall c, In c ins -> mem c p = false) ->
+  startswith p (v ++ z) = false -> startswith p (v ++ ins ++ z) = false.
+Proof.
+  revert v. induction p as [|a p IH]; intros v Hins H; [discriminate H|].
+  destruct v as [|b v]; cbn [app] in *.
+  - destruct ins as [|c ins']; [exact H|]. cbn [app startswith].
+    specialize (Hins c (or_introl eq_refl)). cbn [mem] in Hins.
+    apply orb_false_iff in Hins. destruct Hins as [Hc _]. rewrite N.eqb_sym, Hc. reflexivity.
+  - cbn [startswith] in *. destruct (a =? b)%N; [|reflexivity]. cbn [andb] in *.
+    apply IH; [|exact H]. intros c Hc. specialize (Hins c Hc). cbn [mem] in Hins.
+    apply orb_false_iff in Hins. exact (proj2 Hins).
+Qed.
+
+Lemma count_while_last (p : char -> bool) (v : str) (l : char) (y : str) :
+  p l = false -> count_while p (v ++ l :: y) = count_while p v.
+Proof.
+  intro H. induction v as [|a v IH]; cbn [app].
+  - rewrite count_while_cons, H. reflexivity.
+  - rewrite !count_while_cons, IH. reflexivity.
+Qed.
+
+Lemma count_while_stop_local (p : char -> bool) (v : str) (l : char) (y y' : str) :
+  count_while p (v ++ l :: y) <= length v ->
+  count_while p (v ++ l :: y') = count_while p (v ++ l :: y).
+Proof.
+  induction v as [|a v IH]; cbn [app length]; intro H.
+  - rewrite !count_while_cons in *. destruct (p l); [lia | reflexivity].
+  - rewrite !(count_while_cons p a) in *. destruct (p a); [|reflexivity].
+    rewrite IH by lia. reflexivity.
+Qed.
+
+Lemma find_sub_cons (pat : str) (a : char) (r : str) :
+  find_sub pat (a :: r) =
+  if startswith pat (a :: r) then Some 0 else option_map S (find_sub pat r).
+Proof. reflexivity. Qed.
+
+Lemma find_sub_local (pat v z z' : str) (i : nat) :
+  find_sub pat (v ++ z) = Some i -> i + length pat <= length v ->
+  find_sub pat (v ++ z') = Some i.
+Proof.
+  revert i. induction v as [|a v IH]; intros i H L.
+  - cbn [length] in L. assert (i = 0) by lia. subst i.
+    destruct pat as [|b pat]; [|cbn [length] in L; lia].
+    destruct z'; reflexivity.
+  - cbn [app] in *. rewrite find_sub_cons in *.
+    destruct (startswith pat (a :: v ++ z)) eqn:E.
+    + inversion H. subst i. cbn [length] in L.
+      change (a :: v ++ z) with ((a :: v) ++ z) in E.
+      change (a :: v ++ z') with ((a :: v) ++ z').
+      rewrite (startswith_local pat (a :: v) z' z) by (cbn [length]; lia). rewrite E. reflexivity.
+    + destruct (find_sub pat (v ++ z)) as [j|] eqn:F; cbn [option_map] in H; [|discriminate H].
+      inversion H. subst i. cbn [length] in L.
+      change (a :: v ++ z) with ((a :: v) ++ z) in E.
+      change (a :: v ++ z') with ((a :: v) ++ z').
+      rewrite (startswith_local pat (a :: v) z' z) by (cbn [length]; lia). rewrite E.
+      rewrite (IH j eq_refl) by lia. reflexivity.
+Qed.
+
+Lemma find_sub_none_prefix (pat ins z : str) :
+  (forall c, In c ins -> mem c pat = false) ->
+  find_sub pat z = None -> find_sub pat (ins ++ z) = None.
+Proof.
+  intros Hins H. induction ins as [|c ins IH]; [exact H|].
+  cbn [app]. rewrite find_sub_cons.
+  assert (Hp : pat <> []).
+  { intro E. subst pat. destruct z; discriminate H. }
+  destruct pat as [|a pat]; [contradiction|].
+  assert (Hc : mem c (a :: pat) = false) by (apply Hins; left; reflexivity).
+  cbn [mem] in Hc. apply orb_false_iff in Hc. destruct Hc as [Hc _].
+  cbn [startswith]. rewrite N.eqb_sym, Hc. cbn [andb].
+  rewrite IH; [reflexivity|]. intros c' Hc'. apply Hins. right. exact Hc'.
+Qed.
+
+Lemma find_sub_none_insert (pat v ins z : str) :
+  (forall c, In c ins -> mem c pat = false) ->
+  find_sub pat (v ++ z) = None -> find_sub pat (v ++ ins ++ z) = None.
+Proof.
+  intros Hins. induction v as [|a v IH]; intro H.
+  - cbn [app] in *. apply find_sub_none_prefix; assumption.
+  - cbn [app] in *. rewrite find_sub_cons in *.
+    destruct (startswith pat (a :: v ++ z)) eqn:E; [discriminate H|].
+    change (a :: v ++ z) with ((a :: v) ++ z) in E.
+    change (a :: v ++ ins ++ z) with ((a :: v) ++ ins ++ z).
+    rewrite (startswith_insert_false pat (a :: v) ins z Hins E).
+    destruct (find_sub pat (v ++ z)) as [j|]; [discriminate H|].
+    rewrite IH; reflexivity.
+Qed.
+
+(* the unquoted run relative to the last character of a stable prefix *)
+Lemma unq_run_last_cases (v : str) (l : char) (y y' : str) :
+  (l =? 92)%N = false ->
+  (unq_run (v ++ l :: y) <= length v /\ unq_run (v ++ l :: y') = unq_run (v ++ l :: y)) \/
+  (length v < unq_run (v ++ l :: y) /\ length v < unq_run (v ++ l :: y')).
+Proof.
+  intro Hl.
+  assert (Base : forall z z',
+    (unq_run (l :: z) <= 0 /\ unq_run (l :: z') = unq_run (l :: z)) \/
+    (0 < unq_run (l :: z) /\ 0 < unq_run (l :: z'))).
+  { intros z z'. rewrite !unq_run_cons, Hl. destruct (is_unq_char l); [right; lia | left; lia]. }
+  induction v as [| a | a b r IHr IHb] using str_ind2.
+  - apply Base.
+  - cbn [app length]. rewrite !(unq_run_cons a).
+    destruct (a =? 92)%N.
+    + destruct (esc_ok l); [right; lia | left; lia].
+    + destruct (is_unq_char a); [|left; lia].
+      destruct (Base y y') as [[B1 B2] | [B1 B2]]; [left; lia | right; lia].
+  - change ((a :: b :: r) ++ l :: y) with (a :: b :: (r ++ l :: y)).
+    change ((a :: b :: r) ++ l :: y') with (a :: b :: (r ++ l :: y')).
+    rewrite !(unq_run_cons a). cbn [length].
+    destruct (a =? 92)%N.
+    + destruct (esc_ok b); [|left; lia].
+      destruct IHr as [[B1 B2] | [B1 B2]]; [left; lia | right; lia].
+    + destruct (is_unq_char a); [|left; lia].
+      change (b :: r ++ l :: y) with ((b :: r) ++ l :: y).
+      change (b :: r ++ l :: y') with ((b :: r) ++ l :: y').
+      destruct IHb as [[B1 B2] | [B1 B2]]; cbn [length] in *; [left; lia | right; lia].
+Qed.
+
+Lemma quoted_body_none_prefix (ins z : str) :
+  (forall c, In c ins -> (c =? 34)%N = false /\ (c =? 92)%N = false) ->
+  quoted_body z = None -> quoted_body (ins ++ z) = None.
+Proof.
+  intros Hins H. induction ins as [|c ins IH]; [exact H|].
+  cbn [app]. rewrite quoted_body_cons.
+  destruct (Hins c (or_introl eq_refl)) as [H1 H2]. rewrite H1, H2.
+  rewrite IH; [reflexivity|]. intros c' Hc'. apply Hins. right. exact Hc'.
+Qed.
+
+Lemma quoted_body_none_insert (v : str) (l : char) (ins y : str) :
+  (l =? 92)%N = false ->
+  (forall c, In c ins -> (c =? 34)%N = false /\ (c =? 92)%N = false) ->
+  quoted_body (v ++ l :: y) = None -> quoted_body (v ++ l :: ins ++ y) = None.
+Proof.
+  intros Hl Hins.
+  assert (Base : quoted_body (l :: y) = None -> quoted_body (l :: ins ++ y) = None).
+  { rewrite !quoted_body_cons, Hl. destruct (l =? 34)%N; [discriminate|].
+    destruct (quoted_body y) eqn:Q; [discriminate|]. intros _.
+    rewrite (quoted_body_none_prefix ins y Hins Q). reflexivity. }
+  induction v as [| a | a b r IHr IHb] using str_ind2; intro H.
+  - apply Base. exact H.
+  - cbn [app] in *. rewrite (quoted_body_cons a) in *.
+    destruct (a =? 34)%N; [discriminate H|].
+    destruct (a =? 92)%N.
+    + destruct (esc_ok l); [|reflexivity].
+      destruct (quoted_body y) eqn:Q; [discriminate H|].
+      rewrite (quoted_body_none_prefix ins y Hins Q). reflexivity.
+    + destruct (quoted_body (l :: y)) eqn:Q; [discriminate H|].
+      rewrite (Base eq_refl). reflexivity.
+  - change ((a :: b :: r) ++ l :: y) with (a :: b :: (r ++ l :: y)) in H.
+    change ((a :: b :: r) ++ l :: ins ++ y) with (a :: b :: (r ++ l :: ins ++ y)).
+    rewrite (quoted_body_cons a) in *.
+    destruct (a =? 34)%N; [discriminate H|].
+    destruct (a =? 92)%N.
+    + destruct (esc_ok b); [|reflexivity].
+      destruct (quoted_body (r ++ l :: y)) eqn:Q; [discriminate H|].
+      rewrite (IHr eq_refl). reflexivity.
+    + change (b :: r ++ l :: y) with ((b :: r) ++ l :: y) in H.
+      change (b :: r ++ l :: ins ++ y) with ((b :: r) ++ l :: ins ++ y).
+      destruct (quoted_body ((b :: r) ++ l :: y)) eqn:Q; [discriminate H|].
+      rewrite (IHb eq_refl). reflexivity.
+Qed.
+
+(* -- the rules, one by one: a result that ends before the last character of the stable
+      prefix (or no result) is not changed by layout inserted after that character -- *)
+
+Lemma snoc_app (v : str) (l : char) (z : str) : v ++ l :: z = (v ++ [l]) ++ z.
+Proof. rewrite <- app_assoc. reflexivity. Qed.
+
+Lemma m_char_stable (c : char) (v : str) (l : char) (z z' : str) :
+  m_char c (v ++ l :: z') = m_char c (v ++ l :: z).
+Proof. destruct v; reflexivity. Qed.
+
+Lemma m_lit_stable (lit v : str) (l : char) (z z' : str) :
+  mem l lit = false -> m_lit lit (v ++ l :: z') = m_lit lit (v ++ l :: z).
+Proof. intro H. unfold m_lit. rewrite (startswith_last lit v l z' z H). reflexivity. Qed.
+
+
+  Lemma ins_ws (ins : str) (Hins : forallb is_ws ins = true) : forall c, In c ins -> is_ws c = true.
+  Proof. apply forallb_forall. exact Hins. Qed.
+
+  Lemma ins_not_in_close (ins : str) (Hins : forallb is_ws ins = true) : forall c, In c ins -> mem c doc_close = false.
+  Proof.
+    intros c Hc. destruct (ws_facts c (ins_ws ins Hins c Hc)) as (H1 & H2 & _).
+    change doc_close with [35%N; 93%N; 93%N]. cbn [mem]. rewrite H1, H2. reflexivity.
+  Qed.
+
+  Lemma ins_not_in_bclose (ins : str) (Hins : forallb is_ws ins = true) (n : nat) : forall c, In c ins -> mem c (bracket_close n) = false.
+  Proof.
+    intros c Hc. destruct (ws_facts c (ins_ws ins Hins c Hc)) as (_ & H2 & H3 & _).
+    apply mem_bracket_close; assumption.
+  Qed.
+
+  Lemma ins_not_quote (ins : str) (Hins : forallb is_ws ins = true) : forall c, In c ins -> (c =? 34)%N = false /\ (c =? 92)%N = false.
+  Proof.
+    intros c Hc. destruct (ws_facts c (ins_ws ins Hins c Hc)) as (_ & _ & _ & H4 & H5 & _).
+    split; assumption.
+  Qed.
+
+  Lemma l_not_in_open (l : char) (Hl : good_last l = true) : mem l doc_open = false.
+  Proof.
+    destruct (good_last_facts l Hl) as (H1 & H2 & _).
+    change doc_open with [35%N; 91%N; 91%N; 91%N]. cbn [mem]. rewrite H1, H2. reflexivity.
+  Qed.
+
+  Lemma l_not_in_close (l : char) (Hl : good_last l = true) : mem l doc_close = false.
+  Proof.
+    destruct (good_last_facts l Hl) as (H1 & _ & H3 & _).
+    change doc_close with [35%N; 93%N; 93%N]. cbn [mem]. rewrite H1, H3. reflexivity.
+  Qed.
+
+  Lemma m_docstring_stable (l : char) (ins : str) (Hl : good_last l = true)
+        (Hins : forallb is_ws ins = true) (v y : str) :
+    short_opt (m_docstring (v ++ l :: y)) (length v) ->
+    m_docstring (v ++ l :: ins ++ y) = m_docstring (v ++ l :: y).
+  Proof.
+    unfold m_docstring. rewrite (startswith_last doc_open v l (ins ++ y) y (l_not_in_open l Hl)).
+    destruct (startswith doc_open (v ++ l :: y)) eqn:E; [|reflexivity].
+    apply startswith_len_last in E; [|exact (l_not_in_open l Hl)]. change (length doc_open) with 4 in E.
+    rewrite !(skipn_app_le 4 v) by exact E.
+    pose proof (skipn_length 4 v) as L4. set (v4 := skipn 4 v) in *.
+    destruct (find_sub doc_close (v4 ++ l :: y)) as [i|] eqn:F; cbn [short_opt]; intro H.
+    - rewrite (find_sub_local doc_close v4 (l :: y) (l :: ins ++ y) i F); [reflexivity|].
+      change (length doc_close) with 3. lia.
+    - rewrite snoc_app in F. rewrite (snoc_app v4 l (ins ++ y)).
+      rewrite (find_sub_none_insert doc_close (v4 ++ [l]) ins y (ins_not_in_close ins Hins) F). reflexivity.
+  Qed.
+
+  Lemma m_identifier_stable (l : char) (ins : str) (Hl : good_last l = true)
+        (Hins : forallb is_ws ins = true) (v y : str) :
+    short_opt (m_identifier (v ++ l :: y)) (length v) ->
+    m_identifier (v ++ l :: ins ++ y) = m_identifier (v ++ l :: y).
+  Proof.
+    destruct v as [|a v]; cbn [app m_identifier length].
+    - destruct (is_ident_start l); cbn [short_opt]; intro H; [lia | reflexivity].
+    - destruct (is_ident_start a); cbn [short_opt]; intro H; [|reflexivity].
+      rewrite (count_while_stop_local is_ident_char v l y (ins ++ y)) by lia. reflexivity.
+  Qed.
+
+  Lemma m_unquoted_stable (l : char) (ins : str) (Hl : good_last l = true)
+        (Hins : forallb is_ws ins = true) (v y : str) :
+    short_opt (m_unquoted (v ++ l :: y)) (length v) ->
+    m_unquoted (v ++ l :: ins ++ y) = m_unquoted (v ++ l :: y).
+  Proof.
+    unfold m_unquoted. destruct (good_last_facts l Hl) as (_ & _ & _ & _ & H5 & _).
+    destruct (unq_run_last_cases v l y (ins ++ y) H5) as [[B1 B2] | [B1 B2]].
+    - rewrite B2. reflexivity.
+    - destruct (unq_run (v ++ l :: y)) as [|n]; [lia|]. cbn [short_opt]. intro H. lia.
+  Qed.
+
+  Lemma m_escape_stable (l : char) (ins : str) (Hl : good_last l = true)
+        (Hins : forallb is_ws ins = true) (v y : str) :
+    m_escape (v ++ l :: ins ++ y) = m_escape (v ++ l :: y).
+  Proof.
+    destruct (good_last_facts l Hl) as (_ & _ & _ & _ & H5 & _).
+    assert (B : forall z, m_escape (l :: z) = None).
+    { intro z. destruct z; cbn [m_escape]; [reflexivity|]. rewrite H5. reflexivity. }
+    destruct v as [|a [|b v]]; cbn [app].
+    - rewrite !B. reflexivity.
+    - reflexivity.
+    - reflexivity.
+  Qed.
+
+  Lemma m_quoted_stable (l : char) (ins : str) (Hl : good_last l = true)
+        (Hins : forallb is_ws ins = true) (v y : str) :
+    short_opt (m_quoted (v ++ l :: y)) (length v) ->
+    m_quoted (v ++ l :: ins ++ y) = m_quoted (v ++ l :: y).
+  Proof.
+    destruct (good_last_facts l Hl) as (_ & _ & _ & _ & H5 & _).
+    destruct v as [|a v]; cbn [app m_quoted length].
+    - destruct (l =? 34)%N; [|reflexivity].
+      destruct (quoted_body y) as [m|] eqn:Q; cbn [option_map short_opt]; intro H; [lia|].
+      rewrite (quoted_body_none_prefix ins y (ins_not_quote ins Hins) Q). reflexivity.
+    - destruct (a =? 34)%N; [|reflexivity].
+      destruct (quoted_body (v ++ l :: y)) as [m|] eqn:Q; cbn [option_map short_opt]; intro H.
+      + rewrite snoc_app in Q. rewrite (snoc_app v l (ins ++ y)).
+        rewrite (quoted_body_app (v ++ [l]) m y (ins ++ y) Q); [reflexivity|].
+        rewrite app_length. cbn [length]. lia.
+      + rewrite (quoted_body_none_insert v l ins y H5 (ins_not_quote ins Hins) Q). reflexivity.
+  Qed.
+
+  Lemma m_bracket_arg_stable (l : char) (ins : str) (Hl : good_last l = true)
+        (Hins : forallb is_ws ins = true) (v y : str) :
+    short_opt (m_bracket_arg (v ++ l :: y)) (length v) ->
+    m_bracket_arg (v ++ l :: ins ++ y) = m_bracket_arg (v ++ l :: y).
+  Proof.
+    destruct (good_last_facts l Hl) as (_ & H2 & _ & H4 & _).
+    destruct v as [|a v]; cbn [app m_bracket_arg length].
+    - rewrite H2. reflexivity.
+    - destruct (a =? 91)%N; [|reflexivity].
+      rewrite !(count_while_last (fun c => (c =? 61)%N) v l) by exact H4.
+      pose proof (count_while_le (fun c => (c =? 61)%N) v) as Lc.
+      set (c := count_while (fun c => (c =? 61)%N) v) in *.
+      rewrite !(skipn_app_le c v) by exact Lc.
+      pose proof (skipn_length c v) as L2.
+      destruct (skipn c v) as [|b v3]; cbn [app].
+      + rewrite H2. reflexivity.
+      + destruct (b =? 91)%N; [|reflexivity]. cbn [length] in L2.
+        destruct (find_sub (bracket_close c) (v3 ++ l :: y)) as [i|] eqn:F; cbn [short_opt]; intro H.
+        * rewrite (find_sub_local (bracket_close c) v3 (l :: y) (l :: ins ++ y) i F); [reflexivity|].
+          rewrite bracket_close_length. lia.
+        * rewrite snoc_app in F. rewrite (snoc_app v3 l (ins ++ y)).
+          rewrite (find_sub_none_insert (bracket_close c) (v3 ++ [l]) ins y (ins_not_in_bclose ins Hins c) F).
+          reflexivity.
+  Qed.
+
+  Lemma m_bracket_comment_stable (l : char) (ins : str) (Hl : good_last l = true)
+        (Hins : forallb is_ws ins = true) (v y : str) :
+    short_opt (m_bracket_comment (v ++ l :: y)) (length v) ->
+    m_bracket_comment (v ++ l :: ins ++ y) = m_bracket_comment (v ++ l :: y).
+  Proof.
+    destruct (good_last_facts l Hl) as (H1 & _).
+    destruct v as [|a v]; cbn [app m_bracket_comment length].
+    - rewrite H1. reflexivity.
+    - destruct (a =? 35)%N; [|reflexivity].
+      destruct (m_bracket_arg (v ++ l :: y)) as [m|] eqn:B; cbn [option_map short_opt]; intro H.
+      + rewrite (m_bracket_arg_stable l ins Hl Hins); rewrite B; [reflexivity | cbn [short_opt]; lia].
+      + rewrite (m_bracket_arg_stable l ins Hl Hins); rewrite B; [reflexivity | exact I].
+  Qed.
+
+  Lemma m_run_stable (l : char) (ins : str) (p : char -> bool) (v y : str) :
+    short_opt (m_run p (v ++ l :: y)) (length v) ->
+    m_run p (v ++ l :: ins ++ y) = m_run p (v ++ l :: y).
+  Proof.
+    unfold m_run. intro H.
+    rewrite (count_while_stop_local p v l y (ins ++ y)); [reflexivity|].
+    destruct (count_while p (v ++ l :: y)); cbn [short_opt] in H; lia.
+  Qed.
+
+
+(* line comments *)
+Definition lc_end (len : nat) (rest : str) : option (nat * bool) :=
+  match rest with
+  | [] => Some (1 + len, true)
+  | c :: r' =>
+      if (c =? 13)%N then
+        match r' with
+        | c2 :: _ => if (c2 =? 10)%N then Some (1 + len + 2, false)
+                     else Some (1 + len + 1, false)
+        | [] => Some (1 + len + 1, false)
+        end
+      else Some (1 + len + 1, false)
+  end.
+
+Lemma m_line_comment_cons (a : char) (r : str) :
+  m_line_comment (a :: r) =
+  if (a =? 35)%N then
+    let line := take_while (fun c => negb (is_eol c)) r in
+    if opens_bracket line then None else lc_end (length line) (skipn (length line) r)
+  else None.
+Proof. reflexivity. Qed.
+
+Lemma lc_end_ge (len : nat) (rest : str) (n : nat) (e : bool) :
+  lc_end len rest = Some (n, e) -> 1 + len <= n.
+Proof.
+  unfold lc_end. destruct rest as [|c r']; [intro H; inversion H; lia|].
+  destruct (c =? 13)%N; [|intro H; inversion H; lia].
+  destruct r' as [|c2 r'']; [intro H; inversion H; lia|].
+  destruct (c2 =? 10)%N; intro H; inversion H; lia.
+Qed.
+
+Lemma lc_end_stable (len : nat) (c : char) (v5 : str) (l : char) (z z' : str) :
+  (l =? 10)%N = false ->
+  lc_end len (c :: v5 ++ l :: z') = lc_end len (c :: v5 ++ l :: z).
+Proof.
+  intro H. destruct v5 as [|c2 v6]; cbn [lc_end app]; [rewrite H|]; reflexivity.
+Qed.
+
+Lemma take_while_app_all (p : char -> bool) (v z : str) :
+  forallb p v = true -> take_while p (v ++ z) = v ++ take_while p z.
+Proof.
+  induction v as [|a v IH]; intro H; [reflexivity|].
+  cbn [forallb] in H. apply andb_true_iff in H. destruct H as [Ha Hv].
+  cbn [app take_while]. rewrite Ha, (IH Hv). reflexivity.
+Qed.
+
+Lemma forallb_false_split (p : char -> bool) (v : str) :
+  forallb p v = false ->
+  exists v1 c v5, v = v1 ++ c :: v5 /\ forallb p v1 = true /\ p c = false.
+Proof.
+  induction v as [|a v IH]; intro H; [discriminate H|].
+  cbn [forallb] in H. destruct (p a) eqn:Ea.
+  - cbn [andb] in H. destruct (IH H) as (v1 & c & v5 & -> & H1 & H2).
+    exists (a :: v1), c, v5. cbn [forallb app]. rewrite Ea, H1. repeat split. exact H2.
+  - exists [], a, v. repeat split. exact Ea.
+Qed.
+
+Lemma opens_bracket_last (v : str) (l : char) (t t' : str) :
+  (l =? 91)%N = false -> (l =? 61)%N = false ->
+  opens_bracket (v ++ l :: t') = opens_bracket (v ++ l :: t).
+Proof.
+  intros H1 H2. destruct v as [|a v]; cbn [app opens_bracket].
+  - rewrite H1. reflexivity.
+  - rewrite !(drop_while_app_stop (fun c => (c =? 61)%N) v l) by exact H2.
+    destruct (drop_while (fun c => (c =? 61)%N) v); reflexivity.
+Qed.
+
+Lemma m_line_comment_stable (l : char) (ins : str) (Hl : good_last l = true)
+      (Hins : forallb is_ws ins = true) (v y : str) :
+  short_res (m_line_comment (v ++ l :: y)) (length v) ->
+  m_line_comment (v ++ l :: ins ++ y) = m_line_comment (v ++ l :: y).
+Proof.
+  destruct (good_last_facts l Hl) as (H1 & H2 & _ & H4 & _ & _ & H7).
+  assert (H10 : (l =? 10)%N = false) by (unfold is_eol in H7; lia).
+  destruct v as [|a v]; cbn [app length]; rewrite !m_line_comment_cons.
+  - rewrite H1. reflexivity.
+  - destruct (a =? 35)%N; [|reflexivity]. cbv zeta.
+    set (noeol := fun c => negb (is_eol c)).
+    destruct (forallb noeol v) eqn:Fv.
+    + assert (Fl : forallb noeol (v ++ [l]) = true).
+      { rewrite forallb_app, Fv. cbn [forallb]. unfold noeol. rewrite H7. reflexivity. }
+      rewrite (snoc_app v l y), (snoc_app v l (ins ++ y)).
+      rewrite !(take_while_app_all noeol (v ++ [l])) by exact Fl.
+      rewrite <- !app_assoc. cbn [app].
+      rewrite (opens_bracket_last v l (take_while noeol y) (take_while noeol (ins ++ y)) H2 H4).
+      destruct (opens_bracket (v ++ l :: take_while noeol y)); [reflexivity|].
+      destruct (lc_end _ _) as [[n e]|] eqn:E; cbn [short_res]; intro H.
+      * apply lc_end_ge in E. rewrite app_length in E. cbn [length] in E. lia.
+      * unfold lc_end in E. destruct (skipn _ _) as [|c r'] in E; [discriminate E|].
+        destruct (c =? 13)%N; [|discriminate E]. destruct r' as [|c2 r'']; [discriminate E|].
+        destruct (c2 =? 10)%N; discriminate E.
+    + destruct (forallb_false_split noeol v Fv) as (v1 & c & v5 & -> & F1 & Fc).
+      rewrite <- !app_assoc. cbn [app].
+      rewrite !(take_while_app_stop noeol v1 c) by assumption.
+      rewrite !(skipn_app_le (length v1) v1) by apply le_n. rewrite skipn_all. cbn [app].
+      rewrite (lc_end_stable (length v1) c v5 l y (ins ++ y) H10). reflexivity.
+Qed.
+
+(* module docstrings *)
+Lemma mod_term_S (f from bend : nat) (x : str) :
+  mod_term (S f) from bend x =
+  match find_sub doc_close (skipn from x) with
+  | None => None
+  | Some i =>
+      let e := from + i + 3 in
+      if Nat.leb e bend then
+        match mod_term f e bend x with
+        | Some e' => Some e'
+        | None => Some e
+        end
+      else Some e
+  end.
+Proof. reflexivity. Qed.
+
+Lemma find_sub_close_nil : find_sub doc_close [] = None.
+Proof. reflexivity. Qed.
+
+Lemma mod_term_fuel (f1 : nat) : forall f2 from bend z,
+  length z < from + f1 -> length z < from + f2 ->
+  mod_term f1 from bend z = mod_term f2 from bend z.
+Proof.
+  induction f1 as [|f1 IH]; intros f2 from bend z L1 L2.
+  - destruct f2 as [|f2]; [reflexivity|]. rewrite mod_term_S.
+    rewrite skipn_all2 by lia. rewrite find_sub_close_nil. reflexivity.
+  - destruct f2 as [|f2].
+    + rewrite mod_term_S. rewrite skipn_all2 by lia. rewrite find_sub_close_nil. reflexivity.
+    + rewrite !mod_term_S. destruct (find_sub doc_close (skipn from z)) as [i|]; [|reflexivity].
+      cbv zeta. rewrite (IH f2 (from + i + 3) bend z) by lia. reflexivity.
+Qed.
+
+Lemma mod_term_gt (f : nat) : forall from bend z e,
+  mod_term f from bend z = Some e -> from < e.
+Proof.
+  induction f as [|f IH]; intros from bend z e H; [discriminate H|].
+  rewrite mod_term_S in H. destruct (find_sub doc_close (skipn from z)) as [i|]; [|discriminate H].
+  cbv zeta in H. destruct (Nat.leb (from + i + 3) bend).
+  - destruct (mod_term f (from + i + 3) bend z) as [e'|] eqn:M.
+    + inversion H. subst e'. apply IH in M. lia.
+    + inversion H. lia.
+  - inversion H. lia.
+Qed.
+
+Lemma mod_term_stable (l : char) (ins : str) (Hins : forallb is_ws ins = true)
+      (v3 y : str) (bend bend' : nat) (f : nat) : forall from,
+  from <= length v3 ->
+  (bend = bend' \/ (length v3 <= bend /\ length v3 <= bend')) ->
+  short_opt (mod_term f from bend (v3 ++ l :: y)) (length v3) ->
+  mod_term f from bend' (v3 ++ l :: ins ++ y) = mod_term f from bend (v3 ++ l :: y).
+Proof.
+  induction f as [|f IH]; intros from Lf Hb H; [reflexivity|].
+  rewrite !mod_term_S in *. rewrite !(skipn_app_le from v3) in * by exact Lf.
+  pose proof (skipn_length from v3) as Lv. set (v' := skipn from v3) in *.
+  destruct (find_sub doc_close (v' ++ l :: y)) as [i|] eqn:F.
+  - cbv zeta in *. destruct (Nat.le_gt_cases (from + i + 3) (length v3)) as [Le|Gt].
+    + rewrite (find_sub_local doc_close v' (l :: y) (l :: ins ++ y) i F)
+        by (change (length doc_close) with 3; lia).
+      assert (Eb : Nat.leb (from + i + 3) bend' = Nat.leb (from + i + 3) bend).
+      { destruct Hb as [-> | [B1 B2]]; [reflexivity|].
+        rewrite (proj2 (Nat.leb_le _ _)) by lia. rewrite (proj2 (Nat.leb_le _ _)) by lia.
+        reflexivity. }
+      rewrite Eb. destruct (Nat.leb (from + i + 3) bend); [|reflexivity].
+      rewrite (IH (from + i + 3) Le Hb); [reflexivity|].
+      destruct (mod_term f (from + i + 3) bend (v3 ++ l :: y)); cbn [short_opt] in *; [exact H | exact I].
+    + exfalso. destruct (Nat.leb (from + i + 3) bend).
+      * destruct (mod_term f (from + i + 3) bend (v3 ++ l :: y)) as [e'|] eqn:M; cbn [short_opt] in H.
+        -- apply mod_term_gt in M. lia.
+        -- lia.
+      * cbn [short_opt] in H. lia.
+  - rewrite snoc_app in F. rewrite (snoc_app v' l (ins ++ y)).
+    rewrite (find_sub_none_insert doc_close (v' ++ [l]) ins y (ins_not_in_close ins Hins) F).
+    reflexivity.
+Qed.
+
+Lemma m_module_docstring_stable (l : char) (ins : str) (Hl : good_last l = true)
+      (Hins : forallb is_ws ins = true) (v y : str) :
+  short_opt (m_module_docstring (v ++ l :: y)) (length v) ->
+  m_module_docstring (v ++ l :: ins ++ y) = m_module_docstring (v ++ l :: y).
+Proof.
+  destruct ins as [|c0 ins0] eqn:Eins; [reflexivity|]. rewrite <- Eins in *.
+  assert (Hc0 : In c0 ins) by (rewrite Eins; left; reflexivity).
+  destruct (good_last_facts l Hl) as (_ & _ & _ & _ & H5 & H6 & _).
+  unfold m_module_docstring.
+  rewrite (startswith_last doc_open v l (ins ++ y) y (l_not_in_open l Hl)).
+  destruct (startswith doc_open (v ++ l :: y)) eqn:E; [|reflexivity].
+  apply startswith_len_last in E; [|exact (l_not_in_open l Hl)]. change (length doc_open) with 4 in E.
+  cbv zeta. rewrite !(skipn_app_le 4 v) by exact E.
+  pose proof (skipn_length 4 v) as L1. set (v1 := skipn 4 v) in *.
+  rewrite !(count_while_last is_sptab v1 l) by exact H6.
+  pose proof (count_while_le is_sptab v1) as Lk0. set (k0 := count_while is_sptab v1) in *.
+  rewrite !(skipn_app_le k0 v1) by exact Lk0.
+  pose proof (skipn_length k0 v1) as L2. set (v2 := skipn k0 v1) in *.
+  assert (Hkw : forall c, In c ins -> mem c module_kw = false).
+  { intros c Hc. destruct (ws_facts c (ins_ws ins Hins c Hc)) as (_ & _ & _ & _ & _ & Hm). exact Hm. }
+  destruct (startswith module_kw (v2 ++ l :: y)) eqn:E1.
+  - destruct (le_lt_dec 7 (length v2)) as [L7|L7].
+    + (* the keyword lies inside the stable prefix *)
+      rewrite (startswith_local module_kw v2 (l :: ins ++ y) (l :: y)) by exact L7. rewrite E1.
+      rewrite !(skipn_app_le 7 v2) by exact L7.
+      pose proof (skipn_length 7 v2) as L3. set (v3 := skipn 7 v2) in *.
+      rewrite !(count_while_last is_sptab v3 l) by exact H6.
+      pose proof (count_while_le is_sptab v3) as Lk. set (k := count_while is_sptab v3) in *.
+      set (bend := match k with 0 => 0 | S _ => k + unq_run (skipn k (v3 ++ l :: y)) end).
+      set (bend' := match k with 0 => 0 | S _ => k + unq_run (skipn k (v3 ++ l :: ins ++ y)) end).
+      assert (Hb : bend = bend' \/ (length v3 <= bend /\ length v3 <= bend')).
+      { unfold bend, bend'. destruct k as [|k']; [left; reflexivity|].
+        rewrite !(skipn_app_le (S k') v3) by exact Lk.
+        pose proof (skipn_length (S k') v3) as L4. set (v4 := skipn (S k') v3) in *.
+        destruct (unq_run_last_cases v4 l y (ins ++ y) H5) as [[B1 B2] | [B1 B2]].
+        - left. rewrite B2. reflexivity.
+        - right. lia. }
+      rewrite (mod_term_fuel (S (length (v3 ++ l :: y))) (S (length (v3 ++ l :: ins ++ y)))
+                             0 bend (v3 ++ l :: y))
+        by (rewrite ?app_length; cbn [length]; rewrite ?app_length; lia).
+      intro H.
+      rewrite (mod_term_stable l ins Hins v3 y bend bend' _ 0 (Nat.le_0_l _) Hb); [reflexivity|].
+      destruct (mod_term _ 0 bend (v3 ++ l :: y)) as [e|]; cbn [short_opt] in *; [lia | exact I].
+    + (* the keyword reaches beyond the stable prefix: no short result is possible *)
+      intro H.
+      assert (N : mod_term (S (length (skipn 7 (v2 ++ l :: y)))) 0
+                    (match count_while is_sptab (skipn 7 (v2 ++ l :: y)) with
+                     | 0 => 0
+                     | S _ => count_while is_sptab (skipn 7 (v2 ++ l :: y)) +
+                              unq_run (skipn (count_while is_sptab (skipn 7 (v2 ++ l :: y)))
+                                             (skipn 7 (v2 ++ l :: y)))
+                     end) (skipn 7 (v2 ++ l :: y)) = None).
+      { destruct (mod_term _ 0 _ (skipn 7 (v2 ++ l :: y))) as [e|]; [|reflexivity].
+        cbn [short_opt] in H. lia. }
+      rewrite N.
+      destruct (startswith module_kw (v2 ++ l :: ins ++ y)) eqn:E1'; [|reflexivity].
+      rewrite Eins in E1'. rewrite snoc_app in E1'. cbn [app] in E1'.
+      apply startswith_len_last in E1'; [|rewrite Eins in Hkw; apply Hkw; left; reflexivity].
+      change (length module_kw) with 7 in E1'. rewrite app_length in E1'. cbn [length] in E1'.
+      assert (L6 : length (v2 ++ [l]) = 7) by (rewrite app_length; cbn [length]; lia).
+      rewrite mod_term_S in N. rewrite (snoc_app v2 l y) in N.
+      rewrite (snoc_app v2 l (ins ++ y)).
+      rewrite !(skipn_app_le 7 (v2 ++ [l])) in * by lia.
+      rewrite (skipn_all2 (v2 ++ [l])) in * by lia. cbn [app skipn] in *.
+      rewrite mod_term_S. cbn [skipn].
+      destruct (find_sub doc_close y) as [i|] eqn:F.
+      * cbv zeta in N. destruct (Nat.leb _ _) in N; [destruct (mod_term _ _ _ _) in N|]; discriminate N.
+      * rewrite (find_sub_none_prefix doc_close ins y (ins_not_in_close ins Hins) F). reflexivity.
+  - rewrite snoc_app in E1. rewrite (snoc_app v2 l (ins ++ y)).
+    rewrite (startswith_insert_false module_kw (v2 ++ [l]) ins y Hkw E1). reflexivity.
+Qed.
+
+(* -- best is the maximum over all rules -- *)
+
+Lemma better_true_le (a b : nat * bool) : better a b = true -> fst b <= fst a.
+Proof. unfold better. destruct a as [na ea], b as [nb eb]. cbn [fst snd]. lia. Qed.
+
+Lemma better_false_le (a b : nat * bool) : better a b = false -> fst a <= fst b.
+Proof. unfold better. destruct a as [na ea], b as [nb eb]. cbn [fst snd]. lia. Qed.
+
+Lemma pick_max (rs : list (tk * option (nat * bool))) : forall cur k n e,
+  pick rs cur = Some (k, (n, e)) ->
+  (forall k' n' e', In (k', Some (n', e')) rs -> n' <= n) /\
+  (forall kc nc ec, cur = Some (kc, (nc, ec)) -> nc <= n).
+Proof.
+  induction rs as [|[k0 [r|]] rest IH]; intros cur k n e H.
+  - cbn [pick] in H. split; [intros k' n' e' []|]. intros kc nc ec E. rewrite E in H.
+    inversion H. lia.
+  - cbn [pick] in H. destruct cur as [[kc rc]|].
+    + destruct (better r rc) eqn:B.
+      * destruct (IH _ _ _ _ H) as [A1 A2]. specialize (A2 k0 (fst r) (snd r)).
+        rewrite <- surjective_pairing in A2. specialize (A2 eq_refl).
+        apply better_true_le in B. split.
+        -- intros k' n' e' [E | Hin]; [inversion E; subst; exact A2 | exact (A1 _ _ _ Hin)].
+        -- intros kc' nc ec E. inversion E. subst. cbn [fst] in B. lia.
+      * destruct (IH _ _ _ _ H) as [A1 A2]. specialize (A2 kc (fst rc) (snd rc)).
+        rewrite <- surjective_pairing in A2. specialize (A2 eq_refl).
+        apply better_false_le in B. split.
+        -- intros k' n' e' [E | Hin]; [inversion E; subst; cbn [fst] in B; lia | exact (A1 _ _ _ Hin)].
+        -- intros kc' nc ec E. inversion E. subst. cbn [fst] in A2. exact A2.
+    + destruct (IH _ _ _ _ H) as [A1 A2]. specialize (A2 k0 (fst r) (snd r)).
+      rewrite <- surjective_pairing in A2. specialize (A2 eq_refl). split.
+      * intros k' n' e' [E | Hin]; [inversion E; subst; exact A2 | exact (A1 _ _ _ Hin)].
+      * intros kc nc ec E. discriminate E.
+  - cbn [pick] in H. destruct (IH _ _ _ _ H) as [A1 A2]. split; [|exact A2].
+    intros k' n' e' [E | Hin]; [discriminate E | exact (A1 _ _ _ Hin)].
+Qed.
+
+Theorem best_max (x : str) (k : tk) (n : nat) :
+  best x = Some (k, n) ->
+  forall k' m', In (k', m') rules -> short_res (m' x) n.
+Proof.
+  unfold best. rewrite best_of_pick. intros H k' m' Hin.
+  destruct (pick _ None) as [[k0 [n0 e0]]|] eqn:P; [|discriminate H]. inversion H. subst k0 n0.
+  destruct (pick_max _ _ _ _ _ P) as [A _].
+  destruct (m' x) as [[n' e']|] eqn:E; cbn [short_res]; [|exact I].
+  apply (A k' n' e'). rewrite <- E.
+  apply (in_map (fun km : tk * (str -> option (nat * bool)) => (fst km, snd km x)) rules (k', m') Hin).
+Qed.
+
+Lemma short_noeof (m : option nat) (n b : nat) :
+  short_res (noeof m) n -> n <= b -> short_opt m b.
+Proof. destruct m as [n'|]; cbn [noeof short_res short_opt]; intros H L; [lia | exact I]. Qed.
+
+Ltac in_rules := unfold rules; cbn [In]; repeat first [left; reflexivity | right].
+
+(* the decision of the lexer at a piece start is not changed by layout inserted after a
+   later good character, as long as the piece ends before that character *)
+Theorem best_insert_stable : forall v l y ins k n,
+  good_last l = true -> forallb is_ws ins = true ->
+  best (v ++ l :: y) = Some (k, n) -> n <= length v ->
+  best (v ++ l :: ins ++ y) = Some (k, n).
+Proof.
+  intros v l y ins k n Hl Hins B Ln.
+  pose proof (best_max _ _ _ B) as M.
+  assert (E3 : m_module_docstring (v ++ l :: ins ++ y) = m_module_docstring (v ++ l :: y)).
+  { apply (m_module_docstring_stable l ins Hl Hins).
+    apply (short_noeof _ n); [|exact Ln].
+    apply (M TModuleDoc (fun x => noeof (m_module_docstring x))). in_rules. }
+  assert (E4 : m_docstring (v ++ l :: ins ++ y) = m_docstring (v ++ l :: y)).
+  { apply (m_docstring_stable l ins Hl Hins).
+    apply (short_noeof _ n); [|exact Ln].
+    apply (M TDocstring (fun x => noeof (m_docstring x))). in_rules. }
+  assert (E7 : m_identifier (v ++ l :: ins ++ y) = m_identifier (v ++ l :: y)).
+  { apply (m_identifier_stable l ins Hl Hins).
+    apply (short_noeof _ n); [|exact Ln].
+    apply (M TIdent (fun x => noeof (m_identifier x))). in_rules. }
+  assert (E8 : m_unquoted (v ++ l :: ins ++ y) = m_unquoted (v ++ l :: y)).
+  { apply (m_unquoted_stable l ins Hl Hins).
+    apply (short_noeof _ n); [|exact Ln].
+    apply (M TUnquoted (fun x => noeof (m_unquoted x))). in_rules. }
+  assert (E10 : m_quoted (v ++ l :: ins ++ y) = m_quoted (v ++ l :: y)).
+  { apply (m_quoted_stable l ins Hl Hins).
+    apply (short_noeof _ n); [|exact Ln].
+    apply (M TQuoted (fun x => noeof (m_quoted x))). in_rules. }
+  assert (E11 : m_bracket_arg (v ++ l :: ins ++ y) = m_bracket_arg (v ++ l :: y)).
+  { apply (m_bracket_arg_stable l ins Hl Hins).
+    apply (short_noeof _ n); [|exact Ln].
+    apply (M TBracketArg (fun x => noeof (m_bracket_arg x))). in_rules. }
+  assert (E12 : m_bracket_comment (v ++ l :: ins ++ y) = m_bracket_comment (v ++ l :: y)).
+  { apply (m_bracket_comment_stable l ins Hl Hins).
+    apply (short_noeof _ n); [|exact Ln].
+    apply (M TBracketComment (fun x => noeof (m_bracket_comment x))). in_rules. }
+  assert (E13 : m_line_comment (v ++ l :: ins ++ y) = m_line_comment (v ++ l :: y)).
+  { apply (m_line_comment_stable l ins Hl Hins).
+    assert (S13 : short_res (m_line_comment (v ++ l :: y)) n) by (apply (M TLineComment m_line_comment); in_rules).
+    destruct (m_line_comment (v ++ l :: y)) as [[n' e']|]; cbn [short_res] in *; [lia | exact I]. }
+  assert (E14 : m_run is_eol (v ++ l :: ins ++ y) = m_run is_eol (v ++ l :: y)).
+  { apply (m_run_stable l ins).
+    apply (short_noeof _ n); [|exact Ln].
+    apply (M TNewline (fun x => noeof (m_run is_eol x))). in_rules. }
+  assert (E15 : m_run is_sptab (v ++ l :: ins ++ y) = m_run is_sptab (v ++ l :: y)).
+  { apply (m_run_stable l ins).
+    apply (short_noeof _ n); [|exact Ln].
+    apply (M TSpace (fun x => noeof (m_run is_sptab x))). in_rules. }
+  rewrite best_results.
+  rewrite (m_char_stable 40%N v l y (ins ++ y)), (m_char_stable 41%N v l y (ins ++ y)).
+  rewrite (m_lit_stable doc_open v l y (ins ++ y) (l_not_in_open l Hl)).
+  rewrite (m_lit_stable doc_close v l y (ins ++ y) (l_not_in_close l Hl)).
+  rewrite (m_escape_stable l ins Hl Hins v y).
+  rewrite E3, E4, E7, E8, E10, E11, E12, E13, E14, E15.
+  rewrite <- best_results. exact B.
+Qed.
+
+(* -- in context -- *)
+
+Lemma firstn_exact {A} (l1 l2 : list A) : firstn (length l1) (l1 ++ l2) = l1.
+Proof. rewrite (firstn_app_le (length l1) l1 l2 (le_n _)). apply firstn_all. Qed.
+
+Lemma skipn_exact {A} (l1 l2 : list A) : skipn (length l1) (l1 ++ l2) = l2.
+Proof. rewrite (skipn_app_le (length l1) l1 l2 (le_n _)), skipn_all. reflexivity. Qed.
+
+Lemma reaches_insert (p u0 : str) (l : char) (rest ins : str) (x : str)
+      (ps : list token) (R : str) :
+  good_last l = true -> forallb is_ws ins = true ->
+  x = p ++ (u0 ++ [l]) ++ rest ->
+  reaches x ps R ->
+  forall t, R = t ++ (u0 ++ [l]) ++ rest ->
+            reaches (p ++ (u0 ++ [l]) ++ ins ++ rest) ps (t ++ (u0 ++ [l]) ++ ins ++ rest).
+Proof.
+  intros Hl Hins Hx H. induction H as [|ps a r k n H IH B]; intros t Ht.
+  - rewrite Hx in Ht. apply app_inv_tail in Ht. subst t. apply reaches_nil.
+  - pose proof (best_le _ _ _ B) as Ln.
+    set (pc := firstn (S n) (a :: r)) in *.
+    assert (Lpc : length pc = S n) by (unfold pc; apply firstn_length_le; exact Ln).
+    assert (Esplit : a :: r = (pc ++ t) ++ (u0 ++ [l]) ++ rest).
+    { rewrite <- app_assoc, <- Ht. unfold pc. symmetry. apply firstn_skipn. }
+    specialize (IH (pc ++ t) Esplit).
+    assert (B' : best (((pc ++ t) ++ u0) ++ l :: ins ++ rest) = Some (k, S n)).
+    { apply best_insert_stable; [exact Hl | exact Hins | |].
+      - rewrite <- B. f_equal. symmetry. etransitivity; [exact Esplit|].
+        rewrite <- !app_assoc. reflexivity.
+      - rewrite !app_length. lia. }
+    assert (Eq1 : (pc ++ t) ++ (u0 ++ [l]) ++ ins ++ rest = ((pc ++ t) ++ u0) ++ l :: ins ++ rest).
+    { rewrite <- !app_assoc. reflexivity. }
+    rewrite <- Eq1 in B'.
+    destruct pc as [|a' pc'] eqn:Epc; [cbn [length] in Lpc; lia|].
+    assert (Eshape : (((a' :: pc') ++ t) ++ (u0 ++ [l]) ++ ins ++ rest) =
+                     a' :: (pc' ++ t ++ (u0 ++ [l]) ++ ins ++ rest)).
+    { rewrite <- !app_assoc. reflexivity. }
+    rewrite Eshape in IH, B'.
+    pose proof (reaches_step _ _ _ _ _ _ IH B') as Hs.
+    assert (E1 : a' :: pc' ++ t ++ (u0 ++ [l]) ++ ins ++ rest =
+                 (a' :: pc') ++ (t ++ (u0 ++ [l]) ++ ins ++ rest)) by reflexivity.
+    rewrite E1 in Hs. rewrite <- Lpc in Hs.
+    rewrite firstn_exact, skipn_exact in Hs. exact Hs.
+Qed.
+
+(* layout inserted after a piece ending in a good character is invisible, wherever in the
+   input the piece occurs *)
+Theorem lex_insert_ws_in_context : forall x ps u0 l rest ins k,
+  reaches x ps ((u0 ++ [l]) ++ rest) ->
+  good_last l = true -> forallb is_ws ins = true ->
+  best ((u0 ++ [l]) ++ rest) = Some (k, length (u0 ++ [l])) ->
+  best ((u0 ++ [l]) ++ ins ++ rest) = Some (k, length (u0 ++ [l])) ->
+  lex_sim (lex (concat (map snd ps) ++ (u0 ++ [l]) ++ ins ++ rest)) (lex x).
+Proof.
+  intros x ps u0 l rest ins k R Hl Hins B1 B2.
+  pose proof (reaches_concat _ _ _ R) as Hx. symmetry in Hx.
+  pose proof (reaches_insert (concat (map snd ps)) u0 l rest ins x ps _ Hl Hins Hx R [] eq_refl) as R'.
+  cbn [app] in R'.
+  apply (lex_reaches_sim _ _ ps _ _ R' R).
+  apply (lex_insert_ws_after_piece (u0 ++ [l]) rest ins k); try assumption.
+  destruct u0; discriminate.
+Qed.
+
+Lemma ident_char_good_last (c : char) : is_ident_char c = true -> good_last c = true.
+Proof.
+  unfold good_last, mem, hash, lbr, rbr, eqc, bsl, sp, tab, cr, nl.
+  intro H. char_side.
+Qed.
+
+Theorem lex_insert_ws_after_ident_ctx : forall x ps name rest ins,
+  reaches x ps (name ++ rest) ->
+  best (name ++ rest) = Some (TIdent, length name) ->
+  ins <> [] -> forallb is_ws ins = true ->
+  lex_sim (lex (concat (map snd ps) ++ name ++ ins ++ rest)) (lex x).
+Proof.
+  intros x ps name rest ins R B Hne Hins.
+  destruct (best_ident_shape _ _ B) as (a & r & F & Ha & Hr).
+  rewrite firstn_exact in F.
+  assert (Hall : forallb is_ident_char name = true).
+  { subst name. cbn [forallb]. rewrite (ident_start_char a Ha), Hr. reflexivity. }
+  destruct (exists_last (l := name)) as (u0 & l & E); [subst name; discriminate|].
+  rewrite E in Hall. rewrite forallb_app in Hall. apply andb_true_iff in Hall.
+  destruct Hall as [_ Hlast]. cbn [forallb] in Hlast. rewrite andb_true_r in Hlast.
+  assert (B2 : best (name ++ ins ++ rest) = Some (TIdent, length name)).
+  { rewrite F. apply best_ident_delim; [exact Ha | exact Hr | apply ws_ident_delim; assumption]. }
+  rewrite E in *.
+  apply (lex_insert_ws_in_context x ps u0 l rest ins TIdent R
+           (ident_char_good_last l Hlast) Hins B B2).
+Qed.
+
+Theorem lex_insert_ws_after_paren_ctx : forall x ps c rest ins,
+  reaches x ps ([c] ++ rest) -> c = lpar \/ c = rpar ->
+  forallb is_ws ins = true ->
+  lex_sim (lex (concat (map snd ps) ++ [c] ++ ins ++ rest)) (lex x).
+Proof.
+  intros x ps c rest ins R [-> | ->] Hins.
+  - apply (lex_insert_ws_in_context x ps [] lpar rest ins TLParen R eq_refl Hins);
+      apply best_lpar_any.
+  - apply (lex_insert_ws_in_context x ps [] rpar rest ins TRParen R eq_refl Hins);
+      apply best_rpar_any.
+Qed.
+
+Theorem lex_insert_ws_after_quoted_ctx : forall x ps q rest ins,
+  reaches x ps (q ++ rest) ->
+  best (q ++ rest) = Some (TQuoted, length q) ->
+  forallb is_ws ins = true ->
+  lex_sim (lex (concat (map snd ps) ++ q ++ ins ++ rest)) (lex x).
+Proof.
+  intros x ps q rest ins R B Hins.
+  destruct (quoted_piece_shape _ _ B) as ([r E] & L2 & N).
+  destruct (exists_last (l := q)) as (u0 & l & Eq); [intro Eq; subst q; cbn [length] in L2; lia|].
+  assert (El : l = dq).
+  { rewrite Eq in N. rewrite app_length in N. cbn [length] in N.
+    replace (length u0 + 1 - 1) with (length u0) in N by lia.
+    rewrite <- app_assoc in N. rewrite nth_error_app2 in N by lia.
+    rewrite Nat.sub_diag in N. cbn in N. inversion N. reflexivity. }
+  assert (B2 : best (q ++ ins ++ rest) = Some (TQuoted, length q)).
+  { destruct q as [|c body]; [cbn [length] in L2; lia|].
+    cbn [app] in E. inversion E. subst c. cbn [app] in *. rewrite best_dq in *.
+    destruct (quoted_body (body ++ rest)) as [m|] eqn:Q; [|discriminate B].
+    inversion B as [Hm]. cbn [length] in Hm.
+    rewrite (quoted_body_app body m rest (ins ++ rest) Q) by lia. subst m. reflexivity. }
+  rewrite Eq in *. subst l.
+  apply (lex_insert_ws_in_context x ps u0 dq rest ins TQuoted R eq_refl Hins B B2).
+Qed.
+
+Example lex_insert_ws_in_context_ex :
+  reaches (s"foo(""a"")") [(TIdent, s"foo"); (TLParen, s"(")] (s"""a""" ++ s")") /\
+  lex (s"foo(" ++ s"""a""" ++ [sp; nl] ++ s")") = lex (s"foo(""a"")").
+Proof.
+  split; [|vm_compute; reflexivity].
+  apply (reaches_step (s"foo(""a"")") [(TIdent, s"foo")] lpar (s"""a"")") TLParen 0).
+  - apply (reaches_step (s"foo(""a"")") [] 102%N (s"oo(""a"")") TIdent 2).
+    + apply reaches_nil.
+    + vm_compute. reflexivity.
+  - vm_compute. reflexivity.
+Qed.
+
+(* a line comment inserted in the middle of an input is NOT always invisible: its text can
+   terminate a bracket argument (or a doccomment) whose opening was, until then, lexed as
+   something else.  Here the first input is even accepted by the parser (see ParserFacts). *)
+Example lex_insert_comment_in_context_refuted :
+  comment_text (s" ]]") = true /\
+  reaches (s"foo([[ ())") [(TIdent, s"foo"); (TLParen, s"("); (TUnquoted, s"[["); (TSpace, s" ")]
+          ([lpar] ++ s"))") /\
+  lex (s"foo([[ " ++ [lpar] ++ s"))") =
+    LexOk [(TIdent, s"foo"); (TLParen, s"("); (TUnquoted, s"[["); (TLParen, s"(");
+           (TRParen, s")"); (TRParen, s")")] /\
+  lex (s"foo([[ " ++ [lpar] ++ line_comment (s" ]]") ++ s"))") =
+    LexOk [(TIdent, s"foo"); (TLParen, s"("); (TBracketArg, s"[[ (# ]]");
+           (TRParen, s")"); (TRParen, s")")].
+Proof.
+  split; [vm_compute; reflexivity|]. split; [|split; vm_compute; reflexivity].
+  apply (reaches_step (s"foo([[ ())") [(TIdent, s"foo"); (TLParen, s"("); (TUnquoted, s"[[")]
+                      sp (s"())") TSpace 0).
+  - apply (reaches_step (s"foo([[ ())") [(TIdent, s"foo"); (TLParen, s"(")]
+                        lbr (s"[ ())") TUnquoted 1).
+    + apply (reaches_step (s"foo([[ ())") [(TIdent, s"foo")] lpar (s"[[ ())") TLParen 0).
+      * apply (reaches_step (s"foo([[ ())") [] 102%N (s"oo([[ ())") TIdent 2).
+        -- apply reaches_nil.
+        -- vm_compute. reflexivity.
+      * vm_compute. reflexivity.
+    + vm_compute. reflexivity.
+  - vm_compute. reflexivity.
+Qed.
+
+(* ---- further non-vacuity examples ---- *)
+
+Example lex_all_go_fuel_ex :
+  length (s"f(a)") <= 100 /\ lex_all_go 100 0 (s"f(a)") = lex_all (s"f(a)").
+Proof. split; [cbn; lia | vm_compute; reflexivity]. Qed.
+
+Example lex_visible_ex : exists ts, lex (s"f( a ) # c") = LexOk ts /\ length ts = 4.
+Proof. eexists. split; vm_compute; reflexivity. Qed.
+
+Example best_unterminated_quote_ex : quoted_body (s"ab\""c") = None.
+Proof. vm_compute. reflexivity. Qed.
+
+Example best_bad_escape_ex :
+  (match s"a" with [] => true | b :: _ => negb (esc_ok b) end) = true /\
+  (match @nil char with [] => true | b :: _ => negb (esc_ok b) end) = true.
+Proof. split; reflexivity. Qed.
+
+Example best_unterminated_bracket_comment_hyp_ex :
+  let r := s"[=[ x ]]" in
+  opens_bracket (take_while (fun c => negb (is_eol c)) r) = true /\
+  m_bracket_arg r = None /\ startswith doc_open (hash :: r) = false.
+Proof. repeat split; vm_compute; reflexivity. Qed.
+
+Example best_space_newline_ex : is_sptab tab = true /\ is_eol cr = true.
+Proof. split; reflexivity. Qed.
+
+Example best_ident_delim_hyp_ex :
+  is_ident_start 102%N = true /\ forallb is_ident_char (s"oo_1") = true /\
+  ident_delim (s"(x)") = true.
+Proof. repeat split; reflexivity. Qed.
+
+Example stable_boundary_ex :
+  stable_boundary [lpar] (s"a)") /\ lex_all [lpar] = LexOk [(TLParen, [lpar])].
+Proof.
+  split; [|vm_compute; reflexivity].
+  intros qs rest R Hne. pose proof (reaches_concat _ _ _ R) as C.
+  assert (E : rest = [lpar]).
+  { destruct (concat (map snd qs)) as [|c0 [|c1 t]]; cbn [app] in C.
+    - exact C.
+    - inversion C. contradiction.
+    - inversion C. }
+  subst rest. cbn [app]. rewrite !best_lpar_any. reflexivity.
+Qed.
+
+Example best_insert_stable_ex :
+  good_last 97%N = true /\ best (s"foo(" ++ 97%N :: s")") = Some (TIdent, 3) /\
+  3 <= length (s"foo(") /\
+  best (s"foo(" ++ 97%N :: [sp; nl] ++ s")") = Some (TIdent, 3).
+Proof. repeat split; vm_compute; try reflexivity. lia. Qed.
+
 (* ==== MAIN THEOREMS ==== 
    lex_all_go_fuel, lex_all_step, best_le                       A1 A2
    lex_all_concat, lex_all_nonempty, lex_tokens_canon, lex_visible   A3-A6
@@ -1395,6 +2370,8 @@ Proof. split; vm_compute; reflexivity. Qed.
    lex_insert_ws_after_quoted                                   C2
    best_line_comment, lex_insert_comment_at_start, lex_insert_comment_after_paren,
    lex_insert_comment_after_ident                               C3
+   best_max, best_insert_stable, lex_insert_ws_in_context, lex_insert_ws_after_ident_ctx,
+   lex_insert_ws_after_paren_ctx, lex_insert_ws_after_quoted_ctx     C2 in context
 *)
 Print Assumptions lex_all_go_fuel.
 Print Assumptions lex_all_step.
@@ -1421,3 +2398,9 @@ Print Assumptions best_line_comment.
 Print Assumptions lex_insert_comment_at_start.
 Print Assumptions lex_insert_comment_after_paren.
 Print Assumptions lex_insert_comment_after_ident.
+Print Assumptions best_max.
+Print Assumptions best_insert_stable.
+Print Assumptions lex_insert_ws_in_context.
+Print Assumptions lex_insert_ws_after_ident_ctx.
+Print Assumptions lex_insert_ws_after_paren_ctx.
+Print Assumptions lex_insert_ws_after_quoted_ctx.
